@@ -311,10 +311,38 @@ fn spec_charges(vm: &Vm, costs: &GasCostsValues, hot: &mut Hot, mn: &str, a: &[u
     Some(sp)
 }
 
-fn run_case(ctx: &mut Ctx, scn: &Scn, sched_name: &str, tag: &str) -> Option<u64> {
+fn run_case(ctx: &mut Ctx, scn: &Scn, sched_name: &str, tag: &str) -> Option<u64> { run_case_on(ctx, scn, sched_name, tag, None) }
+
+/// (pc, $cgas, $ggas) at every stop of a run, and the encoded receipts
+type GasTrace = (Vec<(u64, u64, u64)>, Vec<Vec<u8>>);
+
+fn gas_trace(vm: &mut Vm, ready: fuel_vm::checked_transaction::Ready<fuel_tx::Script>) -> GasTrace {
+    let mut t = vec![];
+    run_stepped(vm, ready, 50_000, |vm, _| t.push((reg(vm, RegId::PC), reg(vm, RegId::CGAS), reg(vm, RegId::GGAS))));
+    (t, vm.receipts().iter().map(|r| fuel_types::canonical::Serialize::to_bytes(r)).collect())
+}
+
+/// `dirt`: transactions run first on the SAME interpreter (see `dirty_scenarios`); the measured transaction then runs on the
+/// reused interpreter - with the whole oracle and the model as for a fresh one (every transaction starts from the initial gas
+/// state and a cold slot cache) - and its per-stop gas trace and receipts must equal those of a fresh interpreter over a copy
+/// of the storage
+fn run_case_on(ctx: &mut Ctx, scn: &Scn, sched_name: &str, tag: &str, dirt: Option<&[(Scn, u64)]>) -> Option<u64> {
     let built = match build(scn) { Ok(b) => b, Err(e) => { ctx.count(&format!("invalid-tx.{}", e.split(|c: char| !c.is_alphanumeric()).filter(|w| !w.is_empty()).take(2).collect::<Vec<_>>().join("-"))); return None; } };
     let costs: GasCostsValues = (**scn.params.gas_costs()).clone();
-    let mut vm = new_vm(scn, built.storage.clone());
+    let mut storage = built.storage.clone();
+    if dirt.is_some() { install_dirt_contracts(&mut storage, scn.params.base_asset_id()); }
+    let mut vm = new_vm(scn, storage);
+    let mut fresh: Option<GasTrace> = None;
+    if let Some(d) = dirt {
+        let (ran, in_call) = dirty_vm(&mut vm, d);
+        ctx.count_n("reuse.dirtying-transactions", ran as u64);
+        ctx.count_n("reuse.dirtying-ended-inside-call", in_call as u64);
+        let start: fuel_vm::prelude::MemoryStorage = { let st: &fuel_vm::prelude::MemoryStorage = vm.as_ref(); st.clone() };
+        let mut fvm = new_vm(scn, start);
+        let rd = built.ready.clone();
+        match ctx.guard(|| gas_trace(&mut fvm, rd)) { Ok(t) => fresh = Some(t), Err(m) => { ctx.oracle_fail("panic-vm-run", &format!("{tag} (fresh copy)"), &m); return None; } }
+    }
+    let mut trace: Vec<(u64, u64, u64)> = vec![];
     let mut steps: Vec<StepRec> = vec![];
     let mut pending: Option<StepRec> = None;
     let mut first: Option<(u64, u64)> = None;
@@ -323,6 +351,7 @@ fn run_case(ctx: &mut Ctx, scn: &Scn, sched_name: &str, tag: &str) -> Option<u64
     let ready = built.ready;
     let res = ctx.guard(|| run_stepped(&mut vm, ready, 50_000, |vm, stop| {
         let (cg, gg) = (reg(vm, RegId::CGAS), reg(vm, RegId::GGAS));
+        trace.push((reg(vm, RegId::PC), cg, gg));
         let saved = saved_cgas(vm);
         if first.is_none() { first = Some((cg, gg)); }
         // invariant on the implementation at every stop
@@ -349,6 +378,15 @@ fn run_case(ctx: &mut Ctx, scn: &Scn, sched_name: &str, tag: &str) -> Option<u64
     let input_id = format!("{tag} sched={sched_name} limit={} steps={}", scn.gas_limit, steps.len());
     for m in inv_fail.iter().take(2) { ctx.oracle_fail("inv-cgas-saved-le-ggas", &input_id, m); }
     let receipts: Vec<Receipt> = vm.receipts().to_vec();
+    if let Some((ft, fr)) = &fresh {
+        let mine: Vec<Vec<u8>> = receipts.iter().map(|r| fuel_types::canonical::Serialize::to_bytes(r)).collect();
+        if *ft != trace || *fr != mine {
+            let k = ft.iter().zip(trace.iter()).position(|(a, b)| a != b).unwrap_or(ft.len().min(trace.len()));
+            ctx.oracle_fail("reused-client-gas-differs-from-fresh", &input_id, &format!("first difference at stop {k}: reused (pc, cgas, ggas) = {:?}, fresh = {:?}; stops {} vs {}; receipts equal: {}",
+                trace.get(k), ft.get(k), trace.len(), ft.len(), *fr == mine));
+        }
+        ctx.count("reuse.compared-with-fresh");
+    }
     let panic = panic_of(&receipts);
     let panic_pc = receipts.iter().find_map(|r| match r { Receipt::Panic { pc, .. } => Some(*pc), _ => None });
     match &end.state {
@@ -569,6 +607,9 @@ fn dependent_sweep(ctx: &mut Ctx) {
         scn.script = assemble(b, &base, 0);
         scn.gas_limit = 10_000_000; scn.gas_price = 0; scn.coin_outs.clear();
         let used = run_case(ctx, &scn, name, &format!("storage-walk {name}"));
+        // the same walk as the second transaction of the same interpreter (its first run left every slot in the slot cache,
+        // committed values in storage and, for the V6 schedule, a frame): hot / cold must start cold again
+        run_case_on(ctx, &scn, name, &format!("storage-walk {name} reused"), Some(&[(scn.clone(), 9)]));
         if let Some(u) = used { for k in 0..6u64 { let mut s2 = scn.clone(); s2.gas_limit = u * (k + 1) / 8; run_case(ctx, &s2, name, &format!("storage-walk {name} tight{k}")); } }
         ctx.count("sweep.storage-walk");
     }
@@ -586,6 +627,12 @@ pub fn run(ctx: &mut Ctx) {
         let mut scn = gen_scenario(&mut ctx.rng, Focus::Gas, costs);
         if ctx.rng.chance(2, 3) { scn.gas_limit = scn.gas_limit.max(ctx.rng.range(20_000, 2_000_000)); }
         let used = run_case(ctx, &scn, name, &format!("case={case}"));
+        // the same program as the second / third / fourth transaction of a reused interpreter
+        if used.is_some() && ctx.rng.chance(2, 5) {
+            let dirt = dirty_scenarios(&mut ctx.rng, &scn);
+            run_case_on(ctx, &scn, name, &format!("case={case}.reused"), Some(&dirt));
+            ctx.count("reuse.cases");
+        }
         // tight limits: rerun with a limit inside the consumption of the ample run (runs out mid-program, mid-call, mid-instruction)
         if let Some(u) = used {
             let reruns = if u > 0 { 2 } else { 0 };
